@@ -35,7 +35,7 @@ Proof. exact inert_statements_record_nothing. Qed.
 Theorem C03_helpers_record_nothing :
   forall content a name args returns body line eline decs,
     existsb fixture_spelling decs = false -> prefixb "test_" name = false ->
-    (forall d, In d decs -> usefixtures_names d = [] /\ indirect_fixtures d = []) ->
+    (forall d, In d decs -> usefixtures_names content d = [] /\ indirect_fixtures content d = []) ->
     visit_stmt content (SFunctionDef a name decs args returns body line eline) = [].
 Proof. exact helpers_record_nothing. Qed.
 Theorem C03_body_only_feeds_the_scan :
